@@ -154,7 +154,9 @@ def main():
                       'assembly pass: C10_total',
                       'inputs up to a few kilobytes (plus the shipped 100 KB xhexb.x); nesting depth <= 2000; deeper nesting is probed and reported, not judged '
                       '(stack exhaustion cannot be exhibited by a Gallina model)',
-                      'LeakSanitizer off: leaks are not in the property; a diagnostic without position (assembler stage: "unknown label") is counted, not judged']
+                      'LeakSanitizer off: leaks are not in the property; a diagnostic without position (assembler stage: "unknown label") is counted, not judged',
+                      'the sanitizer harness runs with an unlimited stack (its instrumented frames are several times the real ones: it overflows 8 MB at 4000 nested '
+                      'parentheses where the real xcmp needs > 16000); stack exhaustion is judged on the real executable under the default 8 MB stack']
     ok = ck.proofs()
     ck.log('proofs', 'ok' if ok else 'BROKEN')
     rng = ck.rng
@@ -180,9 +182,9 @@ def main():
     else:
         fixed = fixed_cases()
         shipped = [(n, s.decode('latin1')) for n, s in X.shipped_x()]
-        gen = [(n, s.decode('latin1')) for n, s in X.generated_programs(rng, 30 if not ck.thorough() else 400)]
+        gen = [(n, s.decode('latin1')) for n, s in X.generated_programs(rng, 200 if not ck.thorough() else 3000)]
         ck.cov['mutation_bases'] = {'shipped': len(shipped), 'generated_by_xgen': len(gen)}
-        gens = generated_cases(rng, P['random'], P['mutation'], P['odd'], shipped + gen)
+        gens = [{'src': s.encode('latin1'), 'tag': 'xgen', 'name': n} for n, s in gen] + generated_cases(rng, P['random'], P['mutation'], P['odd'], shipped + gen)
     allcases = fixed + gens
     kept = []            # cases kept for the executable / valgrind samples (bounded)
     nchunk = 0
@@ -212,6 +214,7 @@ def main():
         ck.log('chunk %d: %d cases, groups so far %d, tie differences %d' % (nchunk, len(chunk), len(J.groups), J.tie_diffs))
 
     # ---- executable level
+    kept = [c for c in kept if c.get('cls') != 'hang']       # a hang is already reported; do not wait for it twice more
     exe_sample = pick_sample(kept, P['exe'], rng, prefer=('corpus', 'directed', 'unterminated', 'replay', 'nested'))
     wd = os.path.join(d, 'exe')
     os.makedirs(wd)
@@ -288,11 +291,14 @@ def main():
             if via == 'valgrind memcheck':
                 r = X.run_exe(xcmp, [src], wd2, valgrind=True, timeout=120, nproc=1)[0]
                 return (r['rc'] == 9 or '== Conditional jump' in r['err']) and X.valgrind_where(r['err']) == where
+            if via == 'xcmp executable':
+                r = X.run_exe(xcmp, [src], wd2, timeout=60, nproc=1)[0]
+                return (r['rc'] < 0 or r['rc'] >= 126) and r['rc'] != 124
             return False
         return f
     for (kind, where), g in sorted(J.groups.items()):
         src = g['src']
-        if g['via'] in ('sanitizer harness', 'valgrind memcheck') and kind in ('ub', 'crash', 'uninit', 'stack-overflow') and len(src) > 60:
+        if g['via'] in ('sanitizer harness', 'valgrind memcheck', 'xcmp executable') and kind in ('ub', 'crash', 'uninit', 'stack-overflow') and len(src) > 60:
             try:
                 src = X.minimise(src, still(kind, where, g['via']), budget=50 if g['via'] == 'sanitizer harness' else (12 if not ck.thorough() else 40))
             except Exception:
@@ -314,7 +320,7 @@ def main():
 
     ck.cov['distinct_nontrivial'] = len(J.distinct)
     ck.cov['rule'] = ('byte strings: corpus, directed odd programs (DESIGN C09 stream c), unterminated constructs, nesting depth 1..2000 of 14 constructs, shipped '
-                      'tests/x, random bytes/token soup, token-level mutations of shipped and xgen-generated programs, grammar-valid programs with names of '
+                      'tests/x, well-formed programs of tools/xgen.py, random bytes/token soup, token-level mutations of shipped and xgen-generated programs, grammar-valid programs with names of '
                       'the wrong kind; distinct by content; every input is non-trivial (must end in accept or diagnostic)')
     ck.cov['input_distribution'] = J.dist
     ck.cov['outcomes'] = J.outcomes
@@ -324,6 +330,7 @@ def main():
     ck.cov['valgrind_runs'] = vg_dist
     ck.cov['tie'] = {'compared': J.tie_compared, 'differences': J.tie_diffs, 'what': 'AstPrinter text incl. every [loc=line l:c] on parsed inputs; diagnostic text + location on syntax errors'}
     ck.cov['failure_groups'] = [{'kind': k, 'where': w, 'inputs': g['count'], 'via': g['via']} for (k, w), g in sorted(J.groups.items())]
+    ck.cov['proof_scope'] = 'C09_total_partial: lexer + parser only (front end); C09_full is stated, not proved'
     ck.cov['modelled_passes'] = ['Lexer', 'Parser']
     ck.cov['passes_covered_by_exploration_only'] = ['CreateSymbols', 'ConstProp', 'OptimiseExpr', 'CodeGen', 'LowerDirectives', 'OptimiseDirectives']
     import random as _r
